@@ -758,16 +758,22 @@ def g_op(S):
                 ks = [rng.choice(cols)]
             else:
                 ks = list(dict.fromkeys([rng.choice(cols + [absent(cols)]) for _ in range(rng.choice([2, 3]))]))
-            if key_name(None) in ks:
-                ks = [absent(cols)]                       # `d - None` subtracts nothing (as_list(None) == []): the key None cannot be named here
+            # (round l1, review w1 finding 2: `d - None` DOES delete the column None - as_list is not on that path, _dictattr.py:76-79 - the earlier exclusion
+            # of the key None rested on a false premise and is gone)
+            if any(tagged(k) for k in ks):
+                S.tags.add('sub-keyed')
             S.emit('(tbl sub h%d h%d %s)', dst, h, enc(ks))
             rest = [c for c in cols if c not in ks]
             S.bind(dst, rest, n if rest else 0)
             S.tags.add('sub')
             return
-        scols = [c for c in cols if not tagged(c)]      # d[[1.5, 'a']] is not a list of names to the code (ValueError): string columns only
-        if scols and rng.random() < 0.85:
-            ks = [rng.choice(scols) for _ in range(rng.choice([1, 2, 2, 3]))]
+        # round l1 (review w1 finding 2, defect C01-P1): a projection names EXISTING column keys, strings or not - d[[1.5]], d[['a', 1.5]], d[[None]] project
+        # like d[['a']] (they raised ValueError 'We dont know how to understand this item': is_strs(item) was the test).  Drawn from ALL columns.
+        scols = [c for c in cols if not tagged(c)]      # (the missing-column form keeps to strings: a list with a non-string that is no column is no name list)
+        if cols and rng.random() < 0.85:
+            ks = [rng.choice(cols) for _ in range(rng.choice([1, 2, 2, 3]))]
+            if any(tagged(k) for k in ks):
+                S.tags.add('proj-keyed')
             S.emit('(tbl proj h%d h%d %s)', dst, h, enc(ks))
             S.bind(dst, [c for i, c in enumerate(ks) if c not in ks[:i]], n)
         else:
@@ -1132,7 +1138,7 @@ def laws(rng, tier, ctx):
                         break
             if op == 'proj' and raised is None:
                 src = before[int(sx[3][1:])]
-                ks = proto.dec(sx[4])
+                ks = deck(sx[4])      # the names may be tagged keys (round l1)
                 if ks:
                     res = _snap(state[int(sx[2][1:])])
                     uniq = [k for i, k in enumerate(ks) if k not in ks[:i]]
@@ -1188,9 +1194,52 @@ def laws(rng, tier, ctx):
             yield Finding('violation', case, 'rows of lengths %s under a header of %d name(s) were accepted: the table holds %r, cells were dropped or invented without an error' % (lens_, c, got))
         elif list(t.keys()) != hdr or len(got) != len(want) or not all(set(g) == set(w) and all(_same_cell(g[k], w[k]) for k in w) for g, w in zip(got, want)):
             yield Finding('violation', case, 'rows + header are not the records of a plain list-of-rows reading: %r, expected %r' % (got, want))
+    # an int key beside its str() in a dict of columns (review w1 finding 3, C01-C3): the int names the column str(int), so the two name ONE column and the
+    # later replaces the earlier - but every column GIVEN takes part in the length reconciliation: two different lengths (neither 1) are a ValueError and a
+    # one-cell column is broadcast to the others' length, exactly as for the same columns under distinct names (the statement's "construction from columns
+    # with scalar broadcasting", "two different lengths -> ValueError").  Not on the wire (the model's names are strings): checked on the implementation alone.
+    nk = 150 if tier == 'quick' else 2000
+    for _ in range(nk):
+        k = rng.choice([1, 2, 0, -3, 17])
+        n = rng.choice([1, 2, 3])
+        cols = [(rng.choice(NAMES), n)] if rng.random() < 0.7 else []
+        pair = [(k, rng.choice([n, n, 1, n + 1, n + 2])), (str(k), rng.choice([n, n, 1, n + 1]))]
+        rng.shuffle(pair)
+        cols = cols + pair if rng.random() < 0.5 else pair + cols
+        data = {c: [rng.choice([None, 1, 2, 0.5, 'p']) for _ in range(m)] for c, m in cols}
+        if _ < len(INT_BESIDE_STR):      # the two inputs of the review first (the corpus holds wire lines only, and an int key is not on the wire)
+            data = INT_BESIDE_STR[_]
+            cols = [(c, len(v)) for c, v in data.items()]
+        ls = {m for _, m in cols}
+        big = ls - {1}
+        case = dict(tag='law-int-key-beside-str', lines=['(python: dictable(%r))' % (data,)], atomic=False)
+        count += 1
+        try:
+            from ..engine import with_timeout
+            t = with_timeout(lambda: dictable(dict(data)), 5)
+        except Timeout:
+            yield Finding('violation', case, 'the constructor does not return')
+            continue
+        except ValueError:
+            if len(big) <= 1:
+                yield Finding('violation', case, 'columns of lengths %s (one length, or one length and single cells) were rejected with ValueError' % sorted(ls))
+            continue
+        except Exception as e:
+            yield Finding('violation', case, 'the constructor raised %s' % type(e).__name__)
+            continue
+        want = max(ls)
+        if len(big) > 1:
+            yield Finding('violation', case, 'columns of lengths %s were accepted (the table is %r): a column given with a misfitting length was dropped without the ValueError of the statement' % ([m for _, m in cols], dict(t)))
+        elif check_invariants(t):
+            yield Finding('violation', case, check_invariants(t))
+        elif len(t) != want or sorted(t.keys()) != sorted({str(c) for c, _ in cols}):
+            yield Finding('violation', case, 'columns of lengths %s give a table of %d rows with columns %r: expected %d rows (single cells broadcast) and the columns %r' % (
+                [m for _, m in cols], len(t), list(t.keys()), want, sorted({str(c) for c, _ in cols})))
     if _COV['on']:
         EXTRA['line_coverage'] = coverage_report()
     yield count
 
+
+INT_BESIDE_STR = [{'a': [1, 2], 1: [3, 4, 5], '1': [5, 6]}, {1: [1, 2], '1': [3]}, {'1': [3], 1: [1, 2]}]
 
 MATCHERS = {}
